@@ -274,3 +274,75 @@ def batch_cache_mix(e0: int, e1: int, e2: int, e3: int, pre: int, raise_first: b
     # for map_over_range the 'prefix' bit selects a one-shot iterator as the range
     one_shot = (True if prefix else False) if api == "map_over_range" else False
     _run(n, e0, e1, e2, e3, pre, raise_first, prefix if api == "call_batch" else False, api, "fs+cache:1", purge=purge, one_shot=one_shot)
+
+
+# ------------------------------------------------------------------------------------------------
+# long batches: any internal slicing / chunking of the bulk look-up must be invisible
+# ------------------------------------------------------------------------------------------------
+
+SRC_LONG = (
+    "@m.memento_function(version='1')\n"
+    "def f(x):\n"
+    "    _trace.append(x)\n"
+    "    if x % 97 == 5:\n"
+    "        raise ValueError('bad %r' % (x,))\n"
+    "    return x * 3\n"
+)
+
+
+@obligation(
+    "C15.batch_long",
+    covers=("single-element-memoized-before", "suffix-memoized-before", "every-other-memoized-before"),
+    split={"api": ["call_batch", "map_over_range"], "mode": [0, 1, 2], "store": ["memory", "fs+cache:1"], "pc": [0, 1, 2, 3]},
+    tier_args={"quick": {"N": 700}, "thorough": {"N": 1400}},
+    bounds="a batch of N distinct elements (N = 700 quick, 1400 thorough; every 97th fails) with, memoized beforehand, exactly the element at "
+           "position p / every element from position p on / every second element from p on, for EVERY p < N (single element, memory back-end; every 8th p for the other two shapes; every 32nd p on the "
+           "filesystem back-end with cache): each slot holds its own element's value or failure, exactly the elements not "
+           "memoized before run, once each, and afterwards all N are memoized",
+    variables="choice: p, mode, api, store",
+    budget_s={"quick": 170, "thorough": 900},
+    choice_vars=1,
+)
+def batch_long(p: int, api: str, mode: int, store: str, N: int, pc: int):
+    step = (1 if mode == 0 else 8) if store == "memory" else 32
+    p = (pick(p, (N + 4 * step - 1) // (4 * step)) * 4 + pc) * step  # (pc: the positions are partitioned into 4 jobs)
+    assume(p < N)
+    with concrete_region():
+        cover(["single-element-memoized-before", "suffix-memoized-before", "every-other-memoized-before"][mode])
+        sb = Sandbox(kinds=store)
+        prog = Program("vpc15L")
+        try:
+            prog.exec(SRC_LONG)
+            f = prog.f
+            pre = [p] if mode == 0 else list(range(p, N)) if mode == 1 else list(range(p, N, 2))
+            if mode and len(pre) > 300:
+                pre = pre[:300]
+            for x in pre:
+                _outcome(lambda: f(x))
+            n0 = len(prog.trace)
+            want = [("exc", "ValueError", "bad %r" % (x,)) if x % 97 == 5 else ("val", x * 3) for x in range(N)]
+            if api == "call_batch":
+                out = f.call_batch([{"x": x} for x in range(N)], raise_first_exception=False)
+                got = [("exc", type(r).__name__, str(r).split(MARK)[0]) if isinstance(r, Exception) else ("val", r) for r in out]
+                check("every-slot-holds-its-own-element's-outcome", got == want,
+                      lambda: [(i, got[i], want[i]) for i in range(N) if got[i] != want[i]][:5])
+            else:
+                ok_xs = [x for x in range(N) if x % 97 != 5]
+                res = f.map_over_range(x=ok_xs)
+                bad = [(x, res.get(x)) for x in ok_xs if res.get(x) != x * 3]
+                check("every-range-value-maps-to-its-own-result", bad == [] and len(res) == len(ok_xs), bad[:5])
+            ran = list(prog.trace)[n0:]
+            asked = list(range(N)) if api == "call_batch" else [x for x in range(N) if x % 97 != 5]
+            pre_set = set(pre)
+            expect_ran = sorted(x for x in asked if x not in pre_set)
+            check("exactly-the-elements-not-memoized-before-run-once-each", sorted(ran) == expect_ran,
+                  lambda: (p, mode, sorted(set(ran) ^ set(expect_ran))[:8], len(ran), len(expect_ran)))
+            n1 = len(prog.trace)
+            for x in (0, 1, p, min(N - 1, p + 1), max(0, p - 1), 255, 256, 257, N - 1):
+                if api == "map_over_range" and x % 97 == 5 and x not in pre_set:
+                    continue
+                _outcome(lambda: f(x))
+            check("all-memoized-afterwards", len(prog.trace) == n1, list(prog.trace)[n1:])
+        finally:
+            prog.close()
+            sb.close()
